@@ -13,7 +13,7 @@ from .. import evalenv, evaluation as E, extract, parsing as P, trees as T
 from ..common import Ctx
 from . import _evalcommon as EC
 
-MODULES = ["Ahbicht.Properties.C06"]
+MODULES = ["Ahbicht.Properties.C06", "Ahbicht.Properties.C06Check"]
 
 
 async def _is_valid(x):
